@@ -953,6 +953,9 @@ fn check_code_actions(sim: &mut Sim, resp: &super::client::Response) {
         let (sl, sc) = reference::index_to_pos(src, l.span.start);
         let (el, ec) = reference::index_to_pos(src, l.span.end);
         let want_range = json!({"start":{"line":sl,"character":sc},"end":{"line":el,"character":ec}});
+        if sl != el {
+            sim.res.count("c08_probe_in_multiline_lint", 1);
+        }
         // the ignore command must carry this very lint
         let want_lint = serde_json::to_value(l).unwrap();
         let has_ignore = actions.iter().any(|a| a["command"].as_str() == Some("HarperIgnoreLint") && a["arguments"][1] == want_lint && a["arguments"][0].as_str() == Some(uri.as_str()));
